@@ -1228,6 +1228,15 @@ class EventBus:
             # Cancel the monitor task on timeout too
             monitor_task.cancel()
 
+            if handler_task is None or (
+                handler_task.done() and not handler_task.cancelled() and handler_task.exception() is e
+            ):
+                # It is not our wait_for() that expired: the handler itself raised TimeoutError (e.g. from an inner
+                # asyncio.wait_for / asyncio.timeout). That is an ordinary error of this handler: record the original
+                # exception and leave the event's children alone.
+                event.event_result_update(handler=handler, eventbus=self, error=e)
+                raise
+
             # Create a RuntimeError for timeout
             children = (
                 f' and interrupted any processing of {len(event.event_children)} child events' if event.event_children else ''
